@@ -6,6 +6,7 @@ GROUPS = {
     'par': ('rules_par', 'run'),
     'err': ('rules_err', 'run'),
     'grow': ('rules_grow', 'run'),
+    'view': ('rules_view', 'run'),
 }
 
 # property -> dict(groups, rules, level, undecided, trusted)
@@ -76,4 +77,49 @@ PROPS = {
         level_note='Trusted: buffer_redux reserve/capacity semantics; sizes below 2^62 (overflow of the policy arithmetic is ignored).',
         undecided=['that a full buffer with the record at offset 0 is the only situation reaching the growth call depends on the value-level search (BUF-2 + GROW-4 give the structural half)'],
         trusted=COMMON_TRUST + ['buffer_redux::BufReader::{capacity, reserve}: reserve(n) makes room for n more bytes; nothing else changes the capacity']),
+    'C12': dict(
+        groups=['view'],
+        rules=['TRIM-1', 'TRIM-2', 'SPLIT-LF', 'LEN-1'],
+        level='other',
+        technique='static analysis of MIR: return-value provenance of every line-yielding function (must be the CR trimmer), control/data dependence of the length verdict, constant analysis of split needles',
+        level_text='Decides the structural clauses that make LF and CRLF parse alike: all 7 functions that hand out a line of the buffer return the result of the CR trimmer (itself checked to remove exactly one trailing CR), the record accessors delegate to them, both blank-line tests are CR-aware, every split of buffer data is on LF only, and the unequal-length verdict is decided on the trimmed lengths it reports. The relation between two whole runs is not decided.',
+        level_note='Trusted: memchr / slice::split semantics. Not decided: equality of the complete outcomes of the LF and the CRLF run (relational, value-level).',
+        undecided=['the relation between the two whole runs (records, line numbers) — value-level', 'FASTA per-line mixtures beyond what TRIM-1 implies'],
+        trusted=COMMON_TRUST + ['memchr and core::slice::split split exactly at the given byte']),
+    'C13': dict(
+        groups=['view'],
+        rules=['SPLIT-1', 'VIEW-1', 'VIEW-2', 'VIEW-3', 'TRIM-1'],
+        level='other',
+        technique='static analysis of MIR: abstract signatures (callee, arity, separator constant, selector) of the id/description methods, normalised-body comparison of the two SeqLines mappings, control dependence of the borrowed Cow, slot-wise aggregate provenance of owned conversions',
+        level_text='Sibling agreement and slot agreement decided from the code shape: the 8 splitting methods split the header at 0x20 with the arity/selector the property prescribes, id()/desc() delegate to the byte versions, next/next_back of the line iterator apply the identical mapping to the same inner iterator, the borrowed Cow is produced exactly on the "one line" branch from seq(), owned conversions fill each field from the accessor of the same name. Value equalities themselves and UTF-8 clauses are not decided.',
+        level_note='Trusted: std split/splitn/from_utf8. Not decided: the value equalities between views (follow from the decided structure only together with std semantics).',
+        undecided=['the value equalities themselves', 'UTF-8 clauses (text accessors succeed exactly when their bytes are valid UTF-8) beyond the delegation check'],
+        trusted=COMMON_TRUST),
+    'C17': dict(
+        groups=['view'],
+        rules=['EPOS-1', 'EPOS-2', 'EPOS-3', 'EPOS-4', 'EPOS-5', 'UNIT-4'],
+        level='other',
+        technique='static analysis of MIR: constant propagation of the per-kind line offset into the position helper, copy-origin identity of the reported byte and the compared byte, slot provenance of reported lengths, field-to-formatter flow in Display',
+        level_text='Per error kind the line offset and the id switch reaching the error position match the table in the property (0/no id, 2/id, 0/id, index of the part/id beyond the header); the reported byte is the very value compared with the marker and is read at the record-start / separator offset; reported lengths are the lengths of the trimmed accessors of the same name; the line is the file line counter plus that constant; Display formats every field. FASTA blank-line counting across refills is not decided here (see C03/C05 UNIT rules).',
+        level_note='Trusted: core::fmt. Line numbers are true only if the file line counter is (decided separately for the FASTQ advance; FASTA first-record counting is value-level).',
+        undecided=['FASTA blank-line counting', 'that the line counter itself is right (C05)'],
+        trusted=COMMON_TRUST),
+    'C19': dict(
+        groups=['view'],
+        rules=['SER-1', 'SER-3'],
+        level='other',
+        technique='static analysis of MIR of the derive output: field-name constants of serialize_field vs. names accepted by the generated field visitor vs. declared fields; aggregate provenance in visit_seq/visit_map; field coverage of PartialEq',
+        level_text='Complete modulo trusted serde_derive/serde for the 6 derived types: every declared field is serialised exactly once under its own name, the deserialiser accepts exactly those names and rebuilds every field from the input, and equality of owned records compares every field. skip/rename/default attributes, conversion attributes (from/try_from/into) or a hand-written impl change the analysed shape and are reported.',
+        level_note='Trusted: serde_derive generates correct code for plain structs; the data format round-trips.',
+        undecided=['the data format own round-trip (trusted)'],
+        trusted=COMMON_TRUST + ['serde / serde_derive']),
+    'C20': dict(
+        groups=['view'],
+        rules=['ITER-1', 'ITER-2', 'VIEW-1'],
+        level='other',
+        technique='static analysis of MIR and type facts: provenance of every reported length (must be live iterator state), inner iterator types, delegation of next/next_back',
+        level_text='For the 7 iterator types of the crate: a reported size_hint/len is computed from the wrapped iterator at call time (or from a field that next/next_back update), the wrapped iterators are std slice iterators or zip/skip/take of them (fused, exact-size), next/next_back are the mapped steps of the wrapped iterator and apply the same mapping. With std contracts trusted this gives the iterator contracts at every step.',
+        level_note='Trusted: std iterator contracts for slice::Iter, Zip, Skip, Take. Reader-backed iterators rely on the sticky end (C01/C02 FSM-E).',
+        undecided=['nothing beyond the contracts of std iterators (trusted)'],
+        trusted=COMMON_TRUST + ['std slice::Iter / Zip / Skip / Take are fused and report exact sizes']),
 }
